@@ -354,13 +354,17 @@ func runCheck(prop, tier string, seed int64, workers int) int {
 
 func runC10(rep *engines.Report, p *pool.Pool, tier string) int {
 	rep.Level = "fault_enumeration"
-	specs := []engines.E3Spec{{Name: "F/none/rs20", Cfg: cfgNone, Alphabet: engines.FaultAlphabet(false), Depth: 3}}
+	// rejected calls include an unsupported compression level: every write is refused after the drive has been acquired
+	badLevel := rig.Config{RecordSize: 20, Compression: "gzip", Level: "no-such-level"}
+	specs := []engines.E3Spec{{Name: "F/none/rs20", Cfg: cfgNone, Alphabet: engines.FaultAlphabet(false), Depth: 3},
+		{Name: "F/gzip+unsupported-level/rs20", Cfg: badLevel, Alphabet: engines.FaultAlphabet(false), Depth: 2}}
 	budget := 4 * time.Minute
 	if tier != "quick" {
 		specs = []engines.E3Spec{
 			{Name: "F-full/none/rs20", Cfg: cfgNone, Alphabet: engines.FaultAlphabet(true), Depth: 3},
 			{Name: "F/none/rs1/wc=file", Cfg: rig.Config{RecordSize: 1, WriteCache: "file"}, Alphabet: engines.FaultAlphabet(false), Depth: 4},
 			{Name: "F/gzip+age+minisign/rs1/wc=file", Cfg: rig.Config{RecordSize: 1, Compression: "gzip", Encryption: "age", Signature: "minisign", WriteCache: "file"}, Alphabet: engines.FaultAlphabet(false), Depth: 2},
+			{Name: "F/gzip+unsupported-level/rs20", Cfg: badLevel, Alphabet: engines.FaultAlphabet(false), Depth: 3},
 		}
 		budget = 25 * time.Minute
 	}
@@ -720,7 +724,7 @@ func runC11(rep *engines.Report, p *pool.Pool, tier string) int {
 	plans := []plan{{false, 0, false}, {false, 1, false}, {false, 2, true}, {true, 0, false}, {true, 1, false}}
 	budget := 6 * time.Minute
 	if tier != "quick" {
-		plans = []plan{{false, 0, false}, {false, 1, false}, {false, 2, false}, {true, 0, false}, {true, 1, false}, {true, 2, true}, {false, 3, true}}
+		plans = []plan{{false, 0, false}, {false, 1, false}, {false, 2, true}, {true, 0, false}, {true, 1, true}, {true, 2, false}, {false, 3, false}}
 		budget = 24 * time.Minute
 	}
 	deadline := time.Now().Add(budget)
@@ -737,7 +741,10 @@ func runC11(rep *engines.Report, p *pool.Pool, tier string) int {
 	for _, pl := range plans {
 		scns := engines.Scenarios()
 		if pl.pairs {
-			scns = engines.AllScenarios()
+			scns = engines.QuickScenarios()
+			if tier != "quick" && !pl.seams && pl.bound <= 2 {
+				scns = engines.AllScenarios()
+			}
 		}
 		if time.Now().After(deadline) {
 			exhaustive = false
@@ -868,7 +875,7 @@ func racePass(rep *engines.Report) {
 		Races    int    `json:"races"`
 	}
 	results := []result{}
-	for si, scn := range engines.AllScenarios() {
+	for si, scn := range engines.QuickScenarios() {
 		if strings.HasPrefix(scn.Name, "S6") {
 			continue // deadlocks (known finding): nothing to sample
 		}
